@@ -74,6 +74,12 @@ def obsOpOf (j : Json) : P ObsOp := do
   | [.str "q_hist"] => pure .qHist
   | _ => throw s!"obs op: cannot decode {j}"
 
+def obsOpXOf (j : Json) : P ObsOpX := do
+  match ← asArr j with
+  | [.str "update_rej", k, v, t0, s, c, m] =>
+    pure (.updateRejected (← asNat k) (← asNat v) (← asInt t0) (← asNat s) (← asNat c) (← asInt m))
+  | _ => pure (.plain (← obsOpOf j))
+
 def natsJ (l : List Nat) : Json := Json.arr (l.map natJ).toArray
 
 def occJ : OccAns → Json
@@ -193,8 +199,8 @@ def handle (op : String) (a : Json) : P Json := do
   match op with
   | "obs_run" =>
     let o ← obsOf (← field a "obs")
-    let ops ← getList obsOpOf a "ops"
-    pure <| Json.arr ((o.run ops).1.map obsAnsJ).toArray
+    let ops ← getList obsOpXOf a "ops"
+    pure <| Json.arr ((o.runX ops).1.map obsAnsJ).toArray
   | "net_run" =>
     let ls ← getList idLanOf a "lanelets"
     let built ← getBool a "built"
